@@ -47,6 +47,48 @@ CHECKS = {
    design_ref='DESIGN.md section 6 (C06)',
    note='Trusted: TLC, verif hook, recording resource. READIN/INMATCH are charged to C03.',
    technique='TLA+ interpreter spec + TLC model checking + per-instruction trace validation'),
+ 'C07': dict(
+   category='model_checking',
+   text='Engine.tla splits the session into its persisted part (exported fields of State/Cache) and its volatile part; ViseEq is the product of a long-lived and a '
+        'persisted copy fed the same inputs and external results, TLC checks ModeEquiv and SnapshotRoundTrip on model programs; on the real code every generated history is '
+        'served twice (one long-lived engine vs fresh engine + Persister per request) over memory, filesystem and the Postgres driver on an in-process fake, and TLC '
+        'compares the transcripts and the re-read stored snapshot with the live session (ViseTrace C07_*).',
+   design_ref='DESIGN.md section 6 (C07)',
+   note='Trusted: TLC, recorder, fakepg (in-process transactional fake of the pgx interface). gdbm cannot be built in this sandbox. Comparison up to the end of the session.',
+   technique='TLA+ product model (ViseEq) checked with TLC + two-run trace validation of the real engine on three stores'),
+ 'C08': dict(
+   category='model_checking',
+   text='Vise/Engine.tla model every place the code indexes, slices or panics; ViseMC checks NoPanic, cache consistency and one-scope-per-level on model programs for all '
+        'inputs (selectors, unknown, empty, refused, over-long) to a request bound; all those histories plus random well-formed programs with junk byte strings (0..300 bytes) '
+        'run on the real engine under recover() and a watchdog, in long-lived and persisted mode over three stores; TLC judges every iteration and request (no panic, levels, '
+        'accounting, saved-and-loadable).',
+   design_ref='DESIGN.md section 6 (C08)',
+   note='Trusted: TLC, recorder, generator of well-formed programs. Known findings (CROAK keeps path; maxlevel panic) are matched by specific predicates, everything else fails the check. Example applications: see evidence.',
+   technique='TLA+ interpreter spec + TLC model checking + trace validation of recorded real runs (exhaustive small histories, random beyond)'),
+ 'C17': dict(
+   category='model_checking',
+   text='Reject / FlushBeforeExec are explicit no-op transitions of Engine.tla; ViseMC inserts refused inputs (bad format, over-long) at every position of every model '
+        'history and checks RejectNoEffect; on the real engine TLC compares the session before/after every refused request (position, flags, cache, code, stored record, '
+        'no instruction, no external call, no output) and paired runs with/without inserted refused inputs must give identical transcripts.',
+   design_ref='DESIGN.md section 6 (C17)',
+   note='Trusted: TLC, recorder; input classes computed by the harness from the documented pattern, independently of vm.ValidInput. Custom validators (AddValidInput) not covered.',
+   technique='TLA+ spec + TLC model checking + trace validation incl. two-run comparison'),
+ 'C18': dict(
+   category='model_checking',
+   text='lang is a persisted variable of the spec and every resource lookup is an observable event carrying the context language; ViseMC checks LangReaches on programs '
+        'that switch language with valid/invalid/empty codes; on the real engine the recording resource logs the context language of every code/template/menu/function lookup and TLC '
+        'checks them against the session language, the language transition of every external call, and that the language survives save/load.',
+   design_ref='DESIGN.md section 6 (C18)',
+   note='Trusted: TLC, recording resource, ISO-639 table. Translation fallback of DbResource is exercised in C10.',
+   technique='TLA+ spec + TLC model checking + trace validation of logged lookups'),
+ 'C20': dict(
+   category='model_checking',
+   text='ExecEnd / FlushReq / EngineReset / LoadEngine of Engine.tla classify graceful end vs termination; ViseMC (persisted mode) checks GracefulEndUnwinds, ClientFlagsKept, '
+        'RestartAtRoot, TerminateBlocks on programs with both kinds of end node at depth 1-3 with histories running past the end; the same histories and random programs run on the '
+        'real engine (fresh engine + Persister per request, three stores) and TLC judges every request: outcome class, unwinding, restart at root, blocked requests produce nothing.',
+   design_ref='DESIGN.md section 6 (C20)',
+   note='Trusted: TLC, recorder, fakepg. Engine configured without a first function. One known finding (blocked request renders after a failed terminating request).',
+   technique='TLA+ spec + TLC model checking + request-level trace validation in persisted mode'),
 }
 
 NOT_YET = 'check not built yet in this round (planned: DESIGN.md section 6); not claimed until its machinery exists'
